@@ -49,7 +49,7 @@ pub fn gen_c13(base_seed: u64, batch: &str, run: u64, rng: &mut Rng) -> Scenario
             let mut steps = vec![];
             let n_steps = rng.range(1, if big { 4 } else { 6 });
             for _ in 0..n_steps {
-                match rng.weighted(&[60, 10, if exclusive { 20 } else { 0 }, 10]) {
+                match rng.weighted(&[60, 10, if exclusive { 20 } else { 0 }, 10, if exclusive { 15 } else { 0 }]) {
                     0 => {
                         let kind = match rng.weighted(&[40, 25, 10, 15, 10]) {
                             0 => LendKind::MakeRefA,
@@ -70,6 +70,10 @@ pub fn gen_c13(base_seed: u64, batch: &str, run: u64, rng: &mut Rng) -> Scenario
                     1 => steps.push(LendStep::Check),
                     2 => {
                         steps.push(LendStep::MakeMut { val: next_val });
+                        next_val += 1;
+                    }
+                    4 => {
+                        steps.push(LendStep::ViaMut { val: next_val });
                         next_val += 1;
                     }
                     _ => steps.push(LendStep::Yield),
